@@ -148,6 +148,14 @@ def scenarios(tier):
                                     dict(specs=specs, N=3, d=1, test_size=0.3, batch=0, quick=False, fixed_dec=True),
                                     weight=300 * len(specs), shards=8, max_paths=100000, setup=dict(no_tv=True),
                                     bounds=dict(bandits=name, rows=3, batch_size=0, is_quick=False)))
+    # a linear learning policy under a neighbourhood policy, in both is_quick modes (the simulator's re-implementations take
+    # different routes to the expectations of a row)
+    for quick in (True, False):
+        out.append(Scenario('linucb.knearest:1:cityblock.batch0.%s' % ('quick' if quick else 'full'), simulate,
+                            dict(specs=[('linucb', 'knearest:1:cityblock')], N=4, d=1, test_size=0.5, batch=0, quick=quick,
+                                 fixed_dec=True), weight=300, shards=8, max_paths=100000, setup=dict(no_tv=True),
+                            bounds=dict(bandits='linucb.knearest:1:cityblock', rows='2 train + 2 test', batch_size=0,
+                                        is_quick=quick)))
     # seuclidean: scipy estimates the variance from all rows of one cdist call, so the simulator's shared distance computation
     # must hand it the same rows as the public API does (training rows + one test row)
     out.append(Scenario('greedy0.radius:seuclidean.batch0.quick', simulate,
